@@ -520,6 +520,10 @@ func runC18(c *eng.Ctx) {
 				}
 				return true
 			})
+			if idx != nil {
+				// the index handed to a helper that adds the shard's replicas: the caller's argument
+				idx = eng.Unwrap(eng.UpParamVia(f, a, idx))
+			}
 			if bo, ok := idx.(*ssa.BinOp); ok && bo.Op == token.REM {
 				if _, isCall := bo.X.(*ssa.Call); !isCall {
 					first = idx
